@@ -278,6 +278,7 @@ impl DOP853 {
 
             // Check for underflow due to machine rounding
             if 0.1 * h.abs() <= x.abs() * uround {
+                #[cfg(ivp_verif)] crate::verif_trace::emit("dp_small", 1.0);
                 status = Status::StepSizeTooSmall;
                 break;
             }
@@ -286,6 +287,7 @@ impl DOP853 {
             if (x + 1.01 * h - xend) * posneg > 0.0 {
                 h = xend - x;
                 last = true;
+                #[cfg(ivp_verif)] crate::verif_trace::emit("dp_land", 1.0);
             }
 
             steps.total += 1;
@@ -440,6 +442,7 @@ impl DOP853 {
                 // Step accepted
                 facold = err.max(1.0e-4);
                 steps.accepted += 1;
+                #[cfg(ivp_verif)] crate::verif_trace::emit("dp_acc", steps.accepted as f64);
                 f.ode(xph, &k5, &mut k4);
                 evals.ode += 1;
 
@@ -456,6 +459,7 @@ impl DOP853 {
                     if stden > 0.0 {
                         hlamb = h.abs() * (stnum / stden).sqrt();
                     }
+                    #[cfg(ivp_verif)] crate::verif_trace::emit("dp_stiff", if hlamb > 6.1 { 1.0 } else { 0.0 });
                     if hlamb > 6.1 {
                         nonstiff = 0;
                         iasti += 1;
@@ -642,6 +646,7 @@ impl DOP853 {
                 }
             } else {
                 // Step rejected
+                #[cfg(ivp_verif)] crate::verif_trace::emit("dp_rej", 1.0);
                 hnew = h / facc1.min(fac11 / safety_factor);
                 reject = true;
                 if steps.accepted > 1 {
